@@ -319,7 +319,7 @@ func c13genResDeep(r *rand.Rand, minChunks, span int) *c13Case {
 
 // c13genDeep3 draws a three-level index: more than 255*255 one-byte chunks.
 // It costs 10..30 CPU seconds (a codec reset per chunk): one case per quick
-// run (lz4), one per shard in the thorough tier.
+// run (lz4, in a child of its own), one per shard in the thorough tier.
 func c13genDeep3(r *rand.Rand, quick bool) *c13Case {
 	var c c13Cfg
 	c.Codec = "lz4" // the cheapest per chunk
@@ -1698,6 +1698,17 @@ func C13(rc *vk.Rec) {
 	if !c13selfTest(rc) {
 		return
 	}
+	if os.Getenv("C13_ONLY") == "deep3" {
+		// The quick tier's three-level-index case costs as much as a whole
+		// ordinary shard, so the driver gives it a child of its own.
+		phase := "deep3"
+		if !rc.SkipCase(phase, 0) {
+			rc.Mark(phase, 0)
+			ck := &c13Checker{rc: rc, phase: phase, idx: 0, cs: c13gen(rc.RNG(phase, 0), false, false, "deep3")}
+			ck.faultFree()
+		}
+		return
+	}
 	race := os.Getenv("C13_RACE") != ""
 	nrt := rc.N(960, 16000)
 	nflt := rc.N(160, 1600)
@@ -1720,8 +1731,9 @@ func C13(rc *vk.Rec) {
 			case ph.phase == "rt" && thorough && idx%20 == 3, ph.phase == "rt" && !thorough && idx%30 == 3,
 				ph.phase == "flt" && thorough && idx%50 == 49:
 				force = "zstd"
-			case ph.phase == "rt" && !race && ((thorough && idx == 77) || (!thorough && idx == 45 && rc.Shard == 7)):
-				// > 255*255 chunks: once per thorough shard, once per quick run
+			case ph.phase == "rt" && !race && thorough && idx == 77:
+				// > 255*255 chunks: once per thorough shard (the quick tier runs
+				// one such case in a child of its own, see C13_ONLY above)
 				force = "deep3"
 			case ph.phase == "rt" && idx%60 == 17 && !race && (thorough || rc.Shard%4 == 1):
 				// costs seconds (a fresh zlib.Writer per dictionary trial):
